@@ -65,7 +65,7 @@ def run(ctx):
             for nb, nx in FORCED[ctx.tier]:
                 if fam != "qr" and nx != 0:
                     continue        # only the QR/LQ family has a crossover parameter
-                for bn, _ in (builds if thorough else builds[:1]):
+                for bn, _ in (builds[:2] if thorough else builds[:1]):
                     ctx.replay(bins[bn], "lapack", cases, args + ["nb=%d" % nb, "nx=%d" % nx],
                                name="R2 replay %s nb=%d nx=%d [%s]" % (fam, nb, nx, bn))
 
